@@ -141,6 +141,9 @@ func (c *wsConn) nextWriter(cb func(io.Writer)) {
 	wcl, err := c.conn.NextWriter(websocket.TextMessage)
 	if err != nil {
 		log.Error("handle me:", err)
+		// the callback must still run: lazyWriter blocks until it has been invoked, which
+		// would leave the handler goroutine parked forever once the connection is gone
+		cb(io.Discard)
 		return
 	}
 
